@@ -263,7 +263,8 @@ Fixpoint find_sibling (fuel : nat) (t : Tree) (nextIndex : N) (nm : Name) : outc
 Definition is_lead (b : N) : bool := (b =? 0x5f) || ((0x41 <=? b) && (b <=? 0x5a)).
 
 (** findRelative(scopeIndex, expr).  [skipping = true] is the inner loop that steps over
-    bytes which cannot start a name; the top of the outer loop is [skipping = false]. *)
+    bytes which cannot start a name (a multi-name prefix 0x2f is stepped over together with the
+    segment count behind it); the top of the outer loop is [skipping = false]. *)
 Fixpoint findRelative_go (skipping : bool) (t : Tree) (scopeIndex : N) (expr : list N) : outcome N :=
   match expr with
   | [] => if skipping then Ok InvalidIndex else Ok scopeIndex
@@ -279,6 +280,11 @@ Fixpoint findRelative_go (skipping : bool) (t : Tree) (scopeIndex : N) (expr : l
             | None => Ok InvalidIndex
             end
         | _ => Ok InvalidIndex          (* exprLen - segIndex < amlNameLen *)
+        end
+      else if b0 =? 0x2f then         (* multi-name prefix: the segment count that follows is skipped with it *)
+        match rest0 with
+        | _ :: rest1 => findRelative_go true t scopeIndex rest1
+        | [] => Ok InvalidIndex
         end
       else findRelative_go true t scopeIndex rest0
   end.
